@@ -1,7 +1,7 @@
 """C04 - the reported optimum is the best trial actually evaluated, at every moment."""
 import numpy as np
 
-from vlib import scenario, record, moments
+from vlib import ambient, scenario, record, moments
 from iOpt.solver import Solver
 
 LEVEL = "exploration"
@@ -40,10 +40,14 @@ def cases(tier, seed):
             scn["pk"] = "resolve"
             scn["pattern"] = [["solve"], ["solve"]] + ([["iter", 2], ["solve"]] if rng.random() < 0.5 else [])
         out.append(scn)
+    # workloads written by the repository's authors (shipped examples, solving tests) under the same oracle
+    out += ambient.ambient_cases(tier)
     return out
 
 
 def run_case(scn):
+    if "ambient" in scn:
+        return ambient.run_ambient_case(scn, "C04")
     holder = {}
 
     def inside(problem):
